@@ -20,6 +20,7 @@ class ModuleInfo:
         self.done = set()      # ids of executed top-level statements
         self.env = None        # set by the interpreter
         self.stars = []        # top-level `from X import *` statements, in source order
+        self.patches = {}      # name -> top-level `name.attr = value` statements, in source order
         self._scan(self.tree.body)
 
     def _scan(self, body):
@@ -29,6 +30,12 @@ class ModuleInfo:
                 continue
             for n in bound_names(st):
                 self.binders[n] = st
+            # `Name.attr = value` at top level (attributes attached to a class / function after its definition)
+            if isinstance(st, ast.Assign) and all(isinstance(t, ast.Attribute) and isinstance(t.value, ast.Name) for t in st.targets):
+                for t in st.targets:
+                    self.patches.setdefault(t.value.id, [])
+                    if st not in self.patches[t.value.id]:
+                        self.patches[t.value.id].append(st)
 
     def segment(self, node):
         return ast.get_source_segment(self.source, node)
